@@ -45,7 +45,8 @@ CHECKS = {
    text="Monitor on BlockPartition.get_block (sum-back, repeated request identity, one-block identity) + comparison of the "
         "partition constraints crossing the wrapper boundary with the reference orthogonality set (both inclusions) + evaluation "
         "on real coordinate projections of random vectors, over random multi-partition models; block-smooth class constraints "
-        "evaluated on real block-smooth quadratics with real projections (points sharing labels).",
+        "evaluated on real block-smooth quadratics with real projections (points sharing labels); a quadratic too steep on one "
+        "block must be rejected; points written with null coefficients.",
    note="trusted: pv/canon.py and an independent bilinear expansion; growth across re-solves is judged under C13",
    tech="runtime contracts on get_block + reference-set comparison of sent constraints + concrete-projection evaluation"),
  "C12": dict(cat="exploration", ref="DESIGN 3/C12",
@@ -61,7 +62,8 @@ CHECKS = {
         "evaluations; after each finite re-solve the C01/C02 oracles run against the latest solution, and the multiset of "
         "functionals/LMIs crossing the wrapper boundary, the Gram size and the returned value are compared with a freshly built "
         "equivalent model run in another interpreter; held constraints / LMIs (also removed or never added ones) must evaluate to "
-        "the latest solution; after a re-solve without value accessors must raise.",
+        "the latest solution; after a re-solve without value accessors must raise; the solver keywords reaching the wrapper "
+        "are those of the current call; the size of the solver problem does not grow with the number of solves.",
    note="fresh equivalent = declarations+edits replayed without earlier solves; objects removed from the model by an edit are "
         "outside the statement; thresholds DESIGN 2.8",
    tech="runtime monitor of per-solve wrapper-boundary data + fresh-process reference model + accessor oracles"),
@@ -84,7 +86,7 @@ CHECKS = {
         "value after every inner solve and when duals are assigned; oracle: duals assigned before any heuristic solve, C01 "
         "certificate vs originally sent constraints, dual return = plain-solve dual, primal within [opt - tol, opt], C02 "
         "feasibility, trace monotone, heuristic problem never excludes the optimum; one configuration in six in an environment "
-        "without the mosek package (documented switch to cvxpy must keep the options).",
+        "without the mosek package (documented switch to cvxpy must keep the options); the wrapper's dual getter is a pure read.",
    note="trusted: pv/canon.py, thresholds DESIGN 2.8; MOSEK via stand-in",
    tech="runtime monitor of inner solver calls + certificate/primal oracles + differential plain solve"),
  "C04": dict(cat="exploration", ref="DESIGN 3/C04, Appendix A",
@@ -104,7 +106,8 @@ CHECKS = {
         "functions, repeated evaluations at a named point, stationary point declared last) the tables of constraints and "
         "get_class_constraints_duals() are compared with the reference conditions: one table per documented condition, shape and "
         "labels, entry (i,j) = constraint of that ordered pair (canonical functional equality) or 0, dual entry = eval_dual() "
-        "exactly, names parse back to (function, condition, points); repeated after a second solve of the same object.",
+        "exactly, names parse back to (function, condition, points); repeated after a second solve of the same object; functions "
+        "created by their constructor next to declared ones, no identifier shared by two functions.",
    note="trusted: pv/ref/conditions.py names/pairs, pv/canon.py",
    tech="reference-model monitor over the dual-table accessor and constraint names after real solves"),
  "C03": dict(cat="exploration", ref="DESIGN 3/C03, 2.5",
@@ -123,7 +126,8 @@ CHECKS = {
         "(canonical functional set equality) with a specification transcribed from the step documentation, and that caller-owned "
         "arguments are untouched; oracle B runs the real operation on real functions (exact prox, exact line search, LMO, Bregman "
         "steps, inexact proxes and eps-subgradients whose true gap comes from the conjugate) and requires every recorded side and "
-        "class constraint to hold, tight where the construction is tight.",
+        "class constraint to hold, tight where the construction is tight; a step that queries a function that is not "
+        "differentiable records a new sample, also at a declared stationary point.",
    note="trusted: the specifications in pv/checks/c08.py (documentation transcription), pv/ref/members.py, pv/ref/sym.py",
    tech="runtime contracts on step calls against a reference specification + concrete executions on real functions"),
  "C09": dict(cat="exploration", ref="DESIGN 3/C09, 8.1",
@@ -133,7 +137,7 @@ CHECKS = {
         "initial condition active; for random admissible parameters the performance of many such runs is compared with the value "
         "the library returns (perf <= bound*(1+1e-4)+1e-7); hard instances are searched by a (1+1) evolution strategy over "
         "by-construction member families, starting directions and inexactness choices. 85 of the 86 examples are executed this "
-        "way. For 32 examples the method DOCUMENTED in the docstring is transcribed independently (pv/ref/methods.py) and must "
+        "way. For 39 examples the method DOCUMENTED in the docstring is transcribed independently (pv/ref/methods.py) and must "
         "give the same performance as the example's body on the same function, and stay below the bound.",
    note="sampling of members and starting points: evidence reports the best performance/bound ratio reached per example (1.000 "
         ">= 0.95 for about 40 of them in the quick tier); a bound too small by less than that gap is invisible",
